@@ -54,6 +54,7 @@ func genProgram(t *rapid.T, maxTasks, maxOps int, oneType, noAsync bool) *Case {
 			if op.K == "pub" {
 				id++
 				op.ID = id
+				op.Any = rapid.IntRange(0, 3).Draw(t, "viaAny") == 0
 			}
 			ops = append(ops, op)
 		}
